@@ -118,6 +118,18 @@ func TestSequential(t *testing.T) {
 			}
 			rt.Fatalf("%s\nhistory (%d steps): %s", fmt.Sprintf(f, a...), len(hist), strings.Join(h, "; "))
 		}
+		// entries without any message (and without fields of their own) take a slot like every other entry
+		blank := map[int]bool{}
+		bigEntries := 0
+		expect := func(total int) []string {
+			out := expect(total)
+			for i := range out {
+				if blank[total-i] {
+					out[i] = ""
+				}
+			}
+			return out
+		}
 		check := func(when string) {
 			if d := diff(messages(ml), expect(total)); d != "" {
 				failf("%s: GetLogs after %d accepted writes: %s", when, total, d)
@@ -151,6 +163,10 @@ func TestSequential(t *testing.T) {
 					forceRead = true
 					fullTurns++
 				}
+				if !forceRead && gen.Chance(rt, 12, "special") {
+					burst = 1
+					via = gen.Pick(rt, []string{"core-blank", "logger-blank", "logger-big"}, "via3")
+				}
 				hist = append(hist, fmt.Sprintf("write x%d via %s on core %d", burst, via, ci))
 				for b := 0; b < burst && total < limit; b++ {
 					switch via {
@@ -162,6 +178,21 @@ func TestSequential(t *testing.T) {
 					case "logger":
 						total++
 						c.lg.Info(strconv.Itoa(total), zap.Int("n", total))
+					case "core-blank":
+						total++
+						blank[total] = true
+						if err := c.c.Write(zapcore.Entry{Level: zapcore.InfoLevel}, nil); err != nil {
+							failf("Write: %v", err)
+						}
+					case "logger-blank":
+						total++
+						blank[total] = true
+						c.lg.Info("")
+					case "logger-big":
+						// one entry whose text is far longer than any buffer a dump may use (a dumped payload)
+						total++
+						bigEntries++
+						c.lg.Info(strconv.Itoa(total), zap.String("payload", strings.Repeat("p", gen.Pick(rt, []int{4096, 32768, 40000, 70000}, "biglen"))))
 					default:
 						c.lg.Debug("below the enabler") // must not be recorded
 						if ce := c.c.Check(zapcore.Entry{Level: zapcore.DebugLevel, Message: "below the enabler"}, nil); ce != nil {
@@ -235,6 +266,8 @@ func TestSequential(t *testing.T) {
 		add(deriveMid, "derive-mid-stream")
 		add(fullTurns > 0, "read-exactly-k*capacity-writes-after-the-previous-read")
 		add(len(cores) > 1, "derived-cores")
+		add(len(blank) > 0, "entries-without-message")
+		add(bigEntries > 0, "entries-of-4..70-KiB")
 		add(parentAndChildWrote, "parent-and-derived-both-wrote")
 		ev.Case(strings.Join(hist, ";"), nt, cls...)
 		if nt && ev.WantSample() {
